@@ -2,7 +2,7 @@ import Ds.Basic
 import Ds.Prov
 /-!
 # Ds.Brute / Ds.MC — enumeration and permutation sampling
-Models of `ShapleyImportance._shapley_bruteforce` and `._shapley_montecarlo` (after fix F4).
+Models of `ShapleyImportance._shapley_bruteforce` and `._shapley_montecarlo` (after fixes F4, F11).
 A coalition evaluation is an `Outcome`: a score, or the class of the exception it raised.
 -/
 namespace Ds
@@ -83,10 +83,14 @@ def step (v : List Int → Outcome) (null mean : Rat) (pr : Params) (w : Walk) (
     else
       some { query := q, score := new, counter := 0, imp := imp, cut := false }
 
-/-- one permutation: the column written into `all_importances[:, i]` -/
+/-- one permutation: the column written into `all_importances[:, i]`.  The walk starts by scoring the
+coalition of no units (all-zero query); that score is the baseline of the first unit's marginal. -/
 def column (n : Nat) (v : List Int → Outcome) (null mean : Rat) (pr : Params) (perm : List Nat) : Option (List Rat) :=
-  (perm.foldlM (step v null mean pr)
-    { query := List.replicate n 0, score := null, counter := 0, imp := List.replicate n 0, cut := false }).map (·.imp)
+  match (v (List.replicate n 0)).caught null with
+  | none => none
+  | some s0 =>
+    (perm.foldlM (step v null mean pr)
+      { query := List.replicate n 0, score := s0, counter := 0, imp := List.replicate n 0, cut := false }).map (·.imp)
 
 /-- columns kept: iteration `i` is followed by the clock reading `clock[i+1]`; the loop stops after
 the first iteration whose reading exceeds the budget, *keeping* that iteration (F4) -/
